@@ -146,6 +146,15 @@ func runCheck(e *Engine, args []string, tier string, timeout int, verif string) 
 		opts.TimeoutMs = timeout * 6
 		opts.Batch = 6
 	}
+	ff := loadFindings(verif)
+	opts.ExpectFail = func(name string) bool {
+		for _, f := range ff.Findings {
+			if f.Status == "open" && f.Property == prop && obMatches(f.Obligations, name) {
+				return true
+			}
+		}
+		return false
+	}
 	rr := e.verifyFuncs(fns, opts, func(ob *Obligation) bool { return hasProp(ob.Props, prop) || ob.Kind == "cover" })
 	if len(e.errors) > 0 {
 		for _, m := range e.errors {
@@ -153,7 +162,6 @@ func runCheck(e *Engine, args []string, tier string, timeout int, verif string) 
 		}
 		return 2
 	}
-	ff := loadFindings(verif)
 	nOb, nOK := 0, 0
 	perSolver := map[string]int{}
 	solverSecs := 0.0
